@@ -97,6 +97,7 @@ pub struct Term {
     next_ex: u64,
     plan: VecDeque<Value>,
     handshake: VecDeque<Value>,
+    handshake_default: Value,   // what a (re)connect meets once the queue is used up ({} = a sound terminal)
     default_plan: Value,
     serial: String,
     terminal_id: String,
@@ -467,6 +468,19 @@ fn send_next(term: &mut Term, c: &mut ConnState, cst: &Arc<Mutex<ConnState>>) {
                     push_frame(c, &b, c.ex, pos, false);
                     wake(c);
                 }
+                "dup_field" => {
+                    // completely framed, the expected control field, undecodable for its CONTENT: a field twice (completion: the
+                    // status byte, status information / anything else: the amount)
+                    let b: Vec<u8> = match (frame[0], frame[1]) {
+                        (0x80, 0x00) => vec![0x84, 0x00, 0x00],
+                        (0x06, 0x0f) => vec![0x06, 0x0f, 0x04, 0x19, 0x00, 0x19, 0x00],
+                        (0x04, 0xff) => vec![0x04, 0x0f, 0x0e, 0x04, 0, 0, 0, 0, 0, 1, 0x04, 0, 0, 0, 0, 0, 2],
+                        (0x06, 0x1e) => vec![0x04, 0x0f, 0x0e, 0x04, 0, 0, 0, 0, 0, 1, 0x04, 0, 0, 0, 0, 0, 2],
+                        (a, b2) => vec![a, b2, 0x0e, 0x04, 0, 0, 0, 0, 0, 1, 0x04, 0, 0, 0, 0, 0, 2],
+                    };
+                    push_frame(c, &b, c.ex, pos, false);
+                    wake(c);
+                }
                 "partial" => {
                     let k = (frame.len() / 2).max(1);
                     push_frame(c, &frame[..k], c.ex, pos, false);
@@ -591,7 +605,7 @@ impl AsyncWrite for Conn {
             // a command: a new exchange
             let is_hs = name == "Registration" || (name == "SysInfo" && c.hs_stage == 1);
             let plan: Value = if is_hs {
-                let hs = term.handshake.front().cloned().unwrap_or(json!({}));
+                let hs = term.handshake.front().cloned().unwrap_or(term.handshake_default.clone());
                 let key = if name == "Registration" { "registration" } else { "sysinfo" };
                 if name == "SysInfo" {
                     term.handshake.pop_front();
@@ -721,7 +735,10 @@ impl Connector for SimConnector {
             if term.lock().unwrap_or_else(|e| e.into_inner()).runaway {
                 futures::future::pending::<()>().await;
             }
-            let hs = { term.lock().unwrap_or_else(|e| e.into_inner()).handshake.front().cloned().unwrap_or(json!({})) };
+            let hs = {
+                let t = term.lock().unwrap_or_else(|e| e.into_inner());
+                t.handshake.front().cloned().unwrap_or(t.handshake_default.clone())
+            };
             match hs.get("connect").and_then(|c| c.as_str()).unwrap_or("ok") {
                 "refused" => {
                     let mut t = term.lock().unwrap_or_else(|e| e.into_inner());
@@ -777,7 +794,29 @@ fn classify_err(e: &anyhow::Error) -> Value {
     json!({"class": "Other", "code": Value::Null, "text": text})
 }
 
+/// The Feig part of the configuration the way an application gets it: deserialised, the currency given by its ISO 4217 name.
+/// None when the library rejects it.
+fn feig_config_by_name(c: &Value, name: &str) -> Option<FeigConfig> {
+    serde_json::from_value::<FeigConfig>(json!({
+        "currency": name,
+        "pre_authorization_amount": c.get("pre").map(|v| from_digits(v) as u64).unwrap_or(2500),
+        "read_card_timeout": c.get("read_card_timeout").and_then(|s| s.as_u64()).unwrap_or(15),
+        "password": c.get("password").and_then(|s| s.as_u64()).unwrap_or(123456),
+    })).ok()
+}
+
 fn make_config(c: &Value) -> Config {
+    if let Some(name) = c.get("currency_name").and_then(|s| s.as_str()) {
+        if let Some(fc) = feig_config_by_name(c, name) {
+            let mut base = make_config(&{
+                let mut m = c.clone();
+                m.as_object_mut().map(|o| o.remove("currency_name"));
+                m
+            });
+            base.feig_config = fc;
+            return base;
+        }
+    }
     Config {
         terminal_id: c.get("terminal_id").and_then(|s| s.as_str()).unwrap_or("52523535").to_string(),
         feig_serial: c.get("serial").and_then(|s| s.as_str()).unwrap_or("17FD1E3C").to_string(),
@@ -844,6 +883,7 @@ pub fn run_scenario(sc: &Value) -> Value {
             next_ex: 0,
             plan: sc["plan"].get("exchanges").and_then(|a| a.as_array()).map(|a| a.iter().cloned().collect()).unwrap_or_default(),
             handshake: sc["plan"].get("handshake").and_then(|a| a.as_array()).map(|a| a.iter().cloned().collect()).unwrap_or_default(),
+            handshake_default: sc["plan"].get("handshake_default").cloned().unwrap_or(json!({})),
             default_plan: sc["plan"].get("default").cloned().unwrap_or(json!({"o": "ok"})),
             serial: tcfg.get("serial").and_then(|s| s.as_str()).unwrap_or("17FD1E3C").to_string(),
             terminal_id: tcfg.get("terminal_id").and_then(|s| s.as_str()).unwrap_or("52523535").to_string(),
@@ -852,7 +892,15 @@ pub fn run_scenario(sc: &Value) -> Value {
             booked: 0,
         }));
         set_connector(Arc::new(SimConnector { term: term.clone() }));
+        if let Ok(mut c) = CURRENT.lock() {
+            *c = Some(term.clone());
+        }
         let config = make_config(sc.get("config").unwrap_or(&json!({})));
+        if let Some(name) = sc.get("config").and_then(|c| c.get("currency_name")).and_then(|s| s.as_str()) {
+            // the currency was given by name: say what the library made of it (or that it rejected the name)
+            let got = feig_config_by_name(sc.get("config").unwrap(), name).map(|f| f.currency);
+            term.lock().unwrap().log(json!({"e": "config_currency", "name": name, "accepted": got.is_some(), "numeric": got.unwrap_or(0)}));
+        }
         let empty = vec![];
         let calls = sc.get("calls").and_then(|c| c.as_array()).unwrap_or(&empty);
         // construction: with "new" as the first call the real constructor (which configures) is used, otherwise a client that
@@ -903,6 +951,15 @@ pub fn run_scenario(sc: &Value) -> Value {
                         s
                     };
                     let saved_scripts = std::mem::take(&mut term.lock().unwrap_or_else(|e| e.into_inner()).scripts);
+                    let saved_hsd = std::mem::replace(&mut term.lock().unwrap_or_else(|e| e.into_inner()).handshake_default, json!({}));
+                    // (the terminal's books too: the configure run of the constructor would reverse the dangling pre-authorisations
+                    // the scenario wants the client to find)
+                    let saved_books = {
+                        let mut t = term.lock().unwrap_or_else(|e| e.into_inner());
+                        let b = (t.ledger.clone(), t.next_receipt, t.booked);
+                        t.ledger.clear();
+                        b
+                    };
                     if sc.get("start").and_then(|s| s.as_str()) == Some("disconnected") {
                         // the terminal closes every exchange during construction: the client ends up without a connection
                         term.lock().unwrap_or_else(|e| e.into_inner()).default_plan = json!({"o": "ok", "fault": {"pos": 1, "kind": "close"}});
@@ -920,6 +977,10 @@ pub fn run_scenario(sc: &Value) -> Value {
                     t.plan = saved.0;
                     t.handshake = saved.1;
                     t.scripts = saved_scripts;
+                    t.handshake_default = saved_hsd;
+                    t.ledger = saved_books.0;
+                    t.next_receipt = saved_books.1;
+                    t.booked = saved_books.2;
                     t.events.truncate(saved.2);
                     // the connection the constructed client holds: the last one opened, if it was not dropped
                     let alive = t.conns.last().map(|c| !c.lock().unwrap_or_else(|e| e.into_inner()).dropped).unwrap_or(false);
@@ -982,19 +1043,55 @@ pub fn run_scenario(sc: &Value) -> Value {
     Value::Object(out)
 }
 
+/// The terminal of the scenario that is running: when the code under test spins without ever yielding (no virtual clock can interrupt
+/// that), the driver takes the events logged so far from here.
+static CURRENT: Mutex<Option<Shared>> = Mutex::new(None);
+/// Real seconds a scenario may take (they take milliseconds; a runaway call is ended by its event budget within seconds).
+const WALL_LIMIT_S: u64 = 240;
+
 pub fn client_run(args: &[String]) -> anyhow::Result<()> {
     let f = std::io::BufReader::new(std::fs::File::open(&args[0])?);
     let mut w = out_file(&args[1])?;
+    let mut stuck = 0usize;
     for line in f.lines() {
         let line = line?;
         if line.trim().is_empty() {
             continue;
         }
         let sc: Value = serde_json::from_str(&line)?;
-        let out = run_scenario(&sc);
-        writeln!(w, "{}", out)?;
+        if stuck >= 3 {
+            // three calls are already spinning in their threads: the rest of the batch is not run (reported as harness errors)
+            let mut out = sc.as_object().cloned().unwrap_or_default();
+            out.insert("trace".into(), json!([{"e": "harness-error", "text": "not run: three earlier scenarios never returned control"}]));
+            writeln!(w, "{}", Value::Object(out))?;
+            continue;
+        }
+        let (tx, rx) = std::sync::mpsc::channel();
+        let sc2 = sc.clone();
+        std::thread::spawn(move || {
+            let out = run_scenario(&sc2);
+            let _ = tx.send(out);
+        });
+        match rx.recv_timeout(std::time::Duration::from_secs(WALL_LIMIT_S)) {
+            Ok(out) => writeln!(w, "{}", out)?,
+            Err(_) => {
+                // the call never gave control back: not to the runtime (its one-virtual-day limit never fired), not to anybody
+                stuck += 1;
+                let mut events = CURRENT.lock().ok().and_then(|c| c.clone()).and_then(|t| t.lock().ok().map(|t| t.events.clone())).unwrap_or_default();
+                let op = events.iter().rev().find(|e| e["e"] == "call").and_then(|e| e["op"].as_str()).unwrap_or("").to_string();
+                let t = events.last().and_then(|e| e["t"].as_u64()).unwrap_or(0);
+                events.push(json!({"e": "hang", "op": op, "why": "spinning: no control returned for minutes of real time", "t": t}));
+                let mut out = sc.as_object().cloned().unwrap_or_default();
+                out.insert("trace".into(), Value::Array(events));
+                writeln!(w, "{}", Value::Object(out))?;
+            }
+        }
     }
     w.flush()?;
     let _ = guarded(|| 0);
+    if stuck > 0 {
+        drop(w);
+        std::process::exit(0);
+    }
     Ok(())
 }
